@@ -19,19 +19,27 @@ class C16(Property):
         "cut_shape (adjusted path = first k+1 natural points ++ [p_k + dir*(L - len_k)], k = last index with length < L, lastValid_spec), "
         "dist_zero_when_nothing_below, dist_natural_when_near/none, natural_dist + natTotal_eq_fold (natural distance = fold of segment "
         "lengths), single_point_keeps, equal_tail_keeps_natural/equal_tail_dist, lengths_path_aligned, lengths_head_zero. "
-        "Exact-arithmetic part (laws as the explicit hypothesis structure MonoLaws, shown satisfiable by monoLaws_int): lengths_monotone. "
-        "Model tied to the code bit-for-bit on every run; the remaining clauses (cut point on its segment, extension collinear, Catmull "
-        "simplification preserving the length, IEEE monotonicity/finiteness) are evaluated on the real code by an oracle written from the property text.")
+        "Exact-arithmetic part (laws are explicit hypothesis structures, each shown satisfiable by an instance): lengths_monotone (MonoLaws, Int); "
+        "catmull_simplify_preserves_length (SumLaws = + associative/commutative, a+0=a, (a-b)+b=a, distance symmetric; Int): the points the osu!-mode "
+        "simplification keeps, measured with the updated optimized_len as seed, are exactly as long as the full Catmull sub-path measured with the old one, "
+        "whatever the keep rule selects (telescoping, simplifyLoop_inv/simplifyLoop_fin); end_point_on_ray (RayLaws = * associative, recip(a)*s = s/a; Rat): "
+        "the re-projected end point is p_k + (p_{k+1}-p_k)*t with t = (L-len_k)/|p_{k+1}-p_k| - this is cut_on_segment and extension_collinear in one formula; "
+        "cut_param_range + natLens_step (OrdLaws; Int): 0 < L-len_k <= len_{k+1}-len_k, and len_{k+1}-len_k is the segment's own length for every segment "
+        "but the first, whose booked length also carries optimized_len (that is finding F12). "
+        "Model tied to the code bit-for-bit on every run; IEEE monotonicity/finiteness and the float-level geometry are evaluated on the real code by an "
+        "oracle written from the property text.")
     technique = "Lean 4 proof (case analysis of the mirrored control flow, generic arithmetic) + bit-exact differential correspondence"
     required_theorems = ["calculateLength_some", "calculateLength_total", "lengths_head_zero", "dist_exact", "cut_shape",
                          "lastValid_spec", "dist_zero_when_nothing_below", "dist_natural_when_near", "dist_natural_when_none",
                          "natural_dist", "natTotal_eq_fold", "single_point_keeps", "equal_tail_keeps_natural", "equal_tail_dist",
                          "lengths_path_aligned", "new_is_calculateLength", "new_lengths_head_zero", "lengths_monotone", "monoLaws_int",
-                         "cutIdx_pos_of_pos", "lastValid_le", "lastValid_eq_zero_iff"]
+                         "cutIdx_pos_of_pos", "lastValid_le", "lastValid_eq_zero_iff",
+                         "catmull_simplify_preserves_length", "simplifyLoop_inv", "simplifyLoop_fin", "natTotal_snoc", "natTotal_shift",
+                         "sumLaws_int", "end_point_on_ray", "rayLaws_rat", "cut_param_range", "natLens_step", "cumLens_step", "ordLaws_int"]
     partial_theorems = {
         "lengths_monotone": "proved in exact arithmetic only (hypotheses MonoLaws: segment lengths >= 0, a <= a + x for x >= 0; instantiated on Int); IEEE monotonicity 'beyond 1e-5' and finiteness are tested by the harness oracle, not proved (finiteness fails: F11, F13)",
-        "catmull_simplify_preserves_length": "NOT proved in Lean (telescoping identity of the osu!-mode simplification); tested: natural dist in osu! mode vs the unsimplified curve's dist, 1e-5 relative",
-        "cut_on_segment / extension_collinear": "not proved in Lean (needs |dir| = 1, i.e. sqrt laws): covered by the harness oracle (end point on the segment's line, at distance L - len_k from p_k) with float slack",
+        "catmull_simplify_preserves_length": "proved in exact arithmetic only (SumLaws, instantiated on Int); in IEEE the surplus is accumulated with rounding (it can even be negative by ~5e-7) - tested: natural dist in osu! mode vs the unsimplified curve's dist, 1e-5 relative",
+        "end_point_on_ray / cut_param_range (cut_on_segment, extension_collinear)": "proved in exact arithmetic only (RayLaws on Rat, OrdLaws on Int); t <= 1 for a cut holds for every segment but the first when optimized_len > 0 (F12); the float-level statement (end point on the segment's line at distance L - len_k, within slack) is tested by the oracle; F11 (zero-length segment, division by zero) is outside the laws' domain (|v| = 0)",
         "dist_exact": "the property says 'exactly L' for every L > 0; the code keeps the natural length when |natural - L| < f64::EPSILON (hypothesis `near = false`); the oracle accepts that case explicitly (reported as OK near-natural)",
     }
     trusted_base = [
